@@ -56,7 +56,14 @@ func copyFile(dst, src string) error {
 	if err != nil {
 		return err
 	}
-	return os.WriteFile(dst, b, 0o600)
+	st, err := os.Stat(src)
+	if err != nil {
+		return err
+	}
+	if err := os.WriteFile(dst, b, st.Mode().Perm()); err != nil {
+		return err
+	}
+	return os.Chmod(dst, st.Mode().Perm())
 }
 
 // probeCounters opens a copy of the file and checks that the next put of a
@@ -209,6 +216,46 @@ func TestC03(t *testing.T) {
 		}
 	}
 
+	// ---- Open never modifies the file, also when its permissions are not the ones the server would give it ----
+	if r.Only < 0 {
+		mdir := filepath.Join(dir, "modes")
+		os.MkdirAll(mdir, 0o700)
+		src := filepath.Join(mdir, "src.db")
+		key := realdb.DummyKey("c03-modes")
+		d0, err := realdb.Open(src, key)
+		if err != nil {
+			t.Fatal(err)
+		}
+		for k := 0; k < 4; k++ {
+			d0.Put(realdb.Super(), fmt.Sprintf("m%d", k%2), []byte(fmt.Sprintf("v%d", k)))
+		}
+		raw, _ := os.ReadFile(src)
+		oldMask := syscall.Umask(0)
+		for _, mode := range []os.FileMode{0o600, 0o400, 0o640, 0o644, 0o664, 0o666} {
+			p := filepath.Join(mdir, fmt.Sprintf("copy-%o.db", mode))
+			os.WriteFile(p, raw, mode)
+			os.Chmod(p, mode)
+			before, _ := statFile(p)
+			stBefore, _ := os.Stat(p)
+			r.Eval(1)
+			for open := 1; open <= 2; open++ {
+				if _, err := realdb.Open(p, key); err != nil {
+					r.Violation("reopen-fails", -1, fmt.Sprintf("a copy of the database with mode %o does not open: %v", mode, err), nil)
+					break
+				}
+				after, _ := statFile(p)
+				stAfter, _ := os.Stat(p)
+				if before != after || stBefore.Mode() != stAfter.Mode() {
+					r.Violation("open-modified-file", -1, fmt.Sprintf("opening (#%d) a database file with mode %o changed it (size %d->%d, inode %d->%d, mode %o->%o, bytes or mtime differ=%t)", open, mode, before.size, after.size, before.ino, after.ino, stBefore.Mode().Perm(), stAfter.Mode().Perm(), before.sum != after.sum || before.mtime != after.mtime), nil)
+					break
+				}
+			}
+			r.Count("opens_of_files_with_other_modes", 1)
+			r.Distinct(fmt.Sprintf("open file with mode %o", mode))
+		}
+		syscall.Umask(oldMask)
+	}
+
 	// ---- fixtures written by the pinned commit ----
 	fdir := filepath.Join(os.Getenv("VERIF_DIR"), "fixtures")
 	if os.Getenv("VERIF_DIR") == "" {
@@ -289,7 +336,7 @@ func TestC03(t *testing.T) {
 			r.Violation("fixture-counter-lost", -1, name+": "+err.Error(), map[string]any{"fixture": name})
 		}
 	}
-	r.Require("restarts_after_io_failure", "restarts_after_concurrent_writes", "histories", "restarts", "restarts_after_acknowledged_mutation", "restarts_after_failed_mutation", "restarts_with_newest_version_deleted", "fixtures")
+	r.Require("opens_of_files_with_other_modes", "restarts_after_io_failure", "restarts_after_concurrent_writes", "histories", "restarts", "restarts_after_acknowledged_mutation", "restarts_after_failed_mutation", "restarts_with_newest_version_deleted", "fixtures")
 	r.Rule("seeded random histories of 20-30 operations over 3 ordinary names (+ empty and reserved), with a restart (second db.Open of the same path, full-state comparison with the model, per-name next-version probe on a copy, before/after hash+inode+mtime of the file) after EVERY operation; the history continues on the reopened handle half of the time. Plus 6 fixture databases written by the pinned commit. Distinct = (kind of the operation preceding the restart, its outcome class, number of names) and one class per fixture")
 }
 
